@@ -43,9 +43,9 @@ theorem findEnt_lt {s : St} {p : Path} {e : Ent} (h : s.findEnt p = some e) : e 
   have := List.mem_of_find?_eq_some h
   simpa using this
 
-theorem carryOne_next (s : St) (p : Path) (a : Addr) (m : Method) (f : Bool) :
-    (s.carryOne p a m f).1.next = s.next := by
-  unfold St.carryOne
+theorem carryOneMove_next (s : St) (p : Path) (a : Addr) (m : Method) (f : Bool) :
+    (s.carryOneMove p a m f).1.next = s.next := by
+  unfold St.carryOneMove
   have h1 : (if (s.cache a).isSome then
       if f then St.moveToCache { (s.detach a).setCache a none with dirRo := upd s.dirRo a.d false } p a
       else (s, Out.ok)
@@ -64,6 +64,13 @@ theorem carryOne_next (s : St) (p : Path) (a : Addr) (m : Method) (f : Bool) :
     · exact h1
   · exact h1
   · exact h1
+
+theorem carryOne_next (s : St) (p : Path) (a : Addr) (m : Method) (f : Bool) :
+    (s.carryOne p a m f).1.next = s.next := by
+  unfold St.carryOne
+  split
+  · rw [recheckFromCache_next]; rfl
+  · exact carryOneMove_next s p a m f
 
 theorem carryOne_recGrow (s : St) (p : Path) (a : Addr) (m : Method) (f : Bool) : RecGrow s (s.carryOne p a m f).1 :=
   recGrow_of_eq (carryOne_recs s p a m f) (carryOne_next s p a m f)
